@@ -73,7 +73,8 @@ def _chunk_worker(args):
            "ood": 0, "aborted_other": 0, "harness": [], "digests": []}
     m = hashlib.sha256()
     for index in range(first, first + n):
-        if (_STOP is not None and _STOP.is_set()) or len(out["violations"]) >= 3:
+        if (_STOP is not None and _STOP.is_set()) or len(out["violations"]) >= 3 or \
+                any(v["kind"] == "hang" for _, v, _ in out["violations"]):
             out["truncated"] = True
             break
         seed = core.run_seed(root_seed, pid, index)
@@ -151,7 +152,10 @@ def minimise(check, case, sig, timeout_s, max_exec=400, max_wall=60.0):
 def _minimise_worker(args):
     pid, case, sig, timeout_s = args
     check = load_check(pid)
-    best, execs = minimise(check, case, tuple(sig), timeout_s)
+    if sig[0] == "hang":
+        best, execs = case, 0     # every re-execution of a hang costs a full watchdog period: report it as found
+    else:
+        best, execs = minimise(check, case, tuple(sig), timeout_s)
     res, tb = guarded_run(check, best, timeout_s)
     return best, execs, res, tb
 
